@@ -646,6 +646,71 @@ def resample_smooth(t):
     return out
 
 
+# --------------------------------------------------------------------------- traced runs
+@op
+def trace_solve(t):
+    """Run fteik2d/3d under the recording proxies (interpreter mode only) and validate the
+    update schema on the trace: every store into the traveltime array made by `sweep` stores
+    the result of the immediately preceding `min(...)` call whose first argument is bit-equal
+    to the value the node held before the store."""
+    assert INTERP, "trace ops need NUMBA_DISABLE_JIT=1"
+    import proxy
+    nd = np.asarray(t["slow"]).ndim
+    slow = proxy.wrap(f64(t["slow"]), "arg:slow")
+    with proxy.Recorder() as rec:
+        if nd == 2:
+            from fteikpy._fteik._fteik2d import fteik2d as k
+            tt, g, vz = k(slow, float(t["dz"]), float(t["dx"]), np.float64(t["zs"]), np.float64(t["xs"]),
+                          int(t["nsweep"]), bool(t["grad"]))
+        else:
+            from fteikpy._fteik._fteik3d import fteik3d as k
+            tt, g, vz = k(slow, float(t["dz"]), float(t["dx"]), float(t["dy"]), np.float64(t["zs"]),
+                          np.float64(t["xs"]), np.float64(t["ys"]), int(t["nsweep"]), bool(t["grad"]))
+    ttag = getattr(tt, "_tag", None)
+    n_store = n_bad = n_raise = 0
+    last_min = None
+    bad = []
+    writes_to_args = 0
+    import hashlib
+    hh = hashlib.sha256()
+    nonflag_writes = 0
+    first_sweep_seen = False
+    late_tt_store_outside_sweep = 0
+    for e in rec.events:
+        kind, pos, tag = e[0], e[1], e[2]
+        if kind == "min":
+            last_min = e
+            continue
+        if kind == "w" and tag is not None and tag.startswith("arg:"):
+            writes_to_args += 1
+        if kind == "w" and tag != ttag and not (tag or "").endswith(("zeros", "empty")):
+            nonflag_writes += 1   # writes into arrays other than tt / ttsgn / ttgrad (e.g. td)
+        if kind == "w" and tag == ttag:
+            hh.update(repr(e[3]).encode() + np.asarray(e[6], dtype=np.float64).tobytes())
+            fn = pos[0].co_name
+            if fn == "sweep":
+                first_sweep_seen = True
+                n_store += 1
+                old, new = e[5], e[6]
+                okk = (last_min is not None and last_min[1][0].co_name == "sweep" and old is not None
+                       and np.asarray(new).tobytes() == np.asarray(last_min[6], dtype=np.float64).tobytes()
+                       and np.asarray(last_min[5][0], dtype=np.float64).tobytes() == np.asarray(old).tobytes())
+                if not okk:
+                    n_bad += 1
+                    if len(bad) < 3:
+                        bad.append((proxy.position(pos)[2:4], repr(old), repr(new)))
+                if old is not None and float(new) > float(old):
+                    n_raise += 1
+            elif first_sweep_seen:
+                late_tt_store_outside_sweep += 1
+    return {"tt": np.array(tt), "grad": np.array(g), "vzero": float(vz), "n_store": n_store,
+            "n_bad": n_bad, "n_raise": n_raise, "bad": bad, "writes_to_args": writes_to_args,
+            "late_tt_store_outside_sweep": late_tt_store_outside_sweep,
+            "tt_write_hash": hh.hexdigest(), "nonflag_writes": nonflag_writes,
+            "strict": [(proxy.position(p)[1:4], tg, idx, shp, why) for p, tg, idx, shp, why in rec.strict[:5]],
+            "n_strict": len(rec.strict)}
+
+
 def run_task(t):
     lim = float(t.get("timeout", 20.0))
     err = np.seterr(all="ignore")
